@@ -176,6 +176,10 @@ with SqliteImpl.impl_store.impl_manager as impl:
     def _str_to_datetime(x):
         return sqa.type_coerce(x, sqa.DateTime)
 
+    @impl(ops.str_to_date)
+    def _str_to_date(x):
+        return sqa.type_coerce(sqa.func.date(x), sqa.Date())
+
     # the SQLite floor function is cursed... it throws if you pass in a large value
     # like 1e19. surprisingly, 1e18 works... what a coincidence... :)
     @impl(ops.floor)
